@@ -116,7 +116,14 @@ class C20(Prop):
     harness = "h_simd.c"
     harness_flags = ["-msse4.1", "-Wl,--allow-multiple-definition"]      # the AVX2 / AVX-512 parts of the harness are `#pragma GCC target` regions
     theorems = ["EaselModel.Props.C20." + t for t in (
-        "sse_hmax_epu8", "sse_hmax_epi8", "sse_hmax_epi16", "avx_hmax_epu8", "avx_hmax_epi8", "avx_hmax_epi16", "avx512_hmax_epu8", "avx512_hmax_epi8", "avx512_hmax_epi16", "sse_hsum_ps", "avx_hsum_ps", "avx512_hsum_ps", "sse_hmax_ps", "sse_hmin_ps", "sse_any_gt_epu8", "sse_any_gt_epi16", "avx_any_gt_epi16", "sse_any_gt_ps", "sse_select_ps", "sse_rightshiftz_float", "sse_leftshiftz_float", "avx_rightshiftz_float", "avx_leftshiftz_float", "avx512_rightshiftz_float", "avx512_leftshiftz_float", "sse_rightshift_ps", "sse_leftshift_ps", "sse_rightshift_int8", "sse_rightshift_int16", "avx_rightshift_int8", "avx_rightshift_int16", "avx512_rightshift_int8", "avx512_rightshift_int16", "logf_negative", "logf_zero_subnormal", "logf_inf_nan", "expf_underflow", "expf_overflow", "expf_cutoffs_in_window", "expf_nan", "sum_eq_real", "dot_eq_real", "vmax_spec", "vmin_spec", "argmax_spec", "argmin_spec", "argmax_nil", "sortIncreasing_spec", "sortDecreasing_spec", "norm_of_sum_ne_zero", "norm_of_sum_zero", "entropy_eq", "cdf_spec", "validate_spec", "logSum_all_ninf", "logSum_spec", "logSum_of_max_pinf", "logNorm_spec", "relEntropyGo_spec", "isum_eq", "idot_eq", "log2Sum_spec", "rightshift_fill", "logSum_spec_F", "log2Sum_spec_F", "hmaxU_spec", "hmaxS_spec", "sse_hsum_ps_real", "avx_hsum_ps_real", "avx512_hsum_ps_real", "sse_hmax_ps_real", "sse_hmin_ps_real", "dot_rounding", "kahan_rounding", "mat_cell_in_block", "mat_cell_inj", "mat_cell_surj")]
+        "sse_hmax_epu8", "sse_hmax_epi8", "sse_hmax_epi16", "avx_hmax_epu8", "avx_hmax_epi8", "avx_hmax_epi16", "avx512_hmax_epu8", "avx512_hmax_epi8", "avx512_hmax_epi16", "sse_hsum_ps", "avx_hsum_ps", "avx512_hsum_ps", "sse_hmax_ps", "sse_hmin_ps", "sse_any_gt_epu8", "sse_any_gt_epi16", "avx_any_gt_epi16", "sse_any_gt_ps", "sse_select_ps", "sse_rightshiftz_float", "sse_leftshiftz_float", "avx_rightshiftz_float", "avx_leftshiftz_float", "avx512_rightshiftz_float", "avx512_leftshiftz_float", "sse_rightshift_ps", "sse_leftshift_ps", "sse_rightshift_int8", "sse_rightshift_int16", "avx_rightshift_int8", "avx_rightshift_int16", "avx512_rightshift_int8", "avx512_rightshift_int16", "logf_negative", "logf_zero_subnormal", "logf_inf_nan", "expf_underflow", "expf_overflow", "expf_cutoffs_in_window", "expf_nan", "sum_eq_real", "dot_eq_real", "vmax_spec", "vmin_spec", "argmax_spec", "argmin_spec", "argmax_nil", "sortIncreasing_spec", "sortDecreasing_spec", "norm_of_sum_ne_zero", "norm_of_sum_zero", "entropy_eq", "cdf_spec", "validate_spec", "logSum_all_ninf", "logSum_spec", "logSum_of_max_pinf", "logNorm_spec", "relEntropyGo_spec", "isum_eq", "idot_eq", "log2Sum_spec", "rightshift_fill", "logSum_spec_F", "log2Sum_spec_F", "hmaxU_spec", "hmaxS_spec", "sse_hsum_ps_real", "avx_hsum_ps_real", "avx512_hsum_ps_real", "sse_hmax_ps_real", "sse_hmin_ps_real", "dot_rounding", "kahan_rounding", "mat_cell_in_block", "mat_cell_inj", "mat_cell_surj",
+        # D. regenerated esl_vectorops.c / esl_matrixops.c routines (Generated/VectorOps.lean)
+        "gen_cmp_int", "gen_cmp_int_decr", "gen_cmp_int64", "gen_cmp_int64_decr", "gen_ISortIncreasing", "gen_ISortDecreasing", "gen_LSortIncreasing",
+        "gen_LSortDecreasing", "gen_DSortIncreasing", "gen_DSortDecreasing", "gen_FSortIncreasing", "gen_FSortDecreasing", "gen_max_eq", "gen_min_eq",
+        "gen_IMax", "gen_IMin", "gen_LMax", "gen_LMin", "gen_max_empty", "gen_ISum_exact", "gen_LSum_exact", "gen_ISum_overflow", "gen_DSum", "gen_DSum_real",
+        "gen_argmax_eq", "gen_argmin_eq", "gen_IArgMax", "gen_IArgMin", "gen_LArgMax", "gen_LArgMin", "gen_IDot_exact", "gen_LDot_exact", "gen_DDot",
+        "gen_Reverse", "gen_Reverse_inplace", "gen_Reverse_involution", "gen_Set", "gen_Copy", "gen_Scale", "gen_Increment", "gen_Add", "gen_AddScaled",
+        "gen_mat_flat")]
     claimed = True
     level_text = ("Theorems (Lean kernel): each of the 33 SSE/AVX/AVX-512 helper inlines, as regenerated from the headers of the working tree, equals the scalar "
                   "loop over its lanes for every lane pattern (hmax = fold max; any_gt = exists lane; select/shifts lane-wise with the documented fill; float "
@@ -131,6 +138,7 @@ class C20(Prop):
                   "Trusted: intrinsic semantics table (validated each run), translator, hand model fidelity (differential run), libm, gcc, CPU. "
                   "Two defects found by this check were fixed upstream (FLogValidate/FLog2Validate status, FValidate NaN); their witnesses stay in the corpus.")
     diverge_is_violation = True
+    fault_is_output = True       # a death is judged by `monitor`: only signed overflow of the TRUE result of an I/L arithmetic routine is tolerated
     quick_budget_s = 90
     thorough_budget_s = 1200
     technique = ("Lean 4 proof over SIMD helper definitions regenerated from the headers by a strict translator + a reviewed intrinsic "
@@ -164,8 +172,13 @@ class C20(Prop):
         importlib.reload(simd2lean)
         helpers, infos = simd2lean.generate(ctx.src)
         self._infos = infos
+        import vec2lean
+        importlib.reload(vec2lean)
+        vtext, vinfos = vec2lean.generate(ctx.src)
+        self._vinfos = vinfos
         return {"EaselModel/Generated/SimdHelpers.lean": helpers,
-                "EaselModel/Generated/SimdLogExp.lean": simd2lean.generate_logexp(ctx.src)}
+                "EaselModel/Generated/SimdLogExp.lean": simd2lean.generate_logexp(ctx.src),
+                "EaselModel/Generated/VectorOps.lean": vtext}
 
     # ------------------------------------------------------------------------------------------ cases
     def corpus(self, ctx):
@@ -414,6 +427,7 @@ class C20(Prop):
         rng = ctx.rng
         quick = ctx.tier == "quick"
         ops = []
+        edge_faults = []
         lens = [1, 2, 3, 4, 5, 7, 8, 16, 17, 31, 64, 100, 255, 256, 999, 1000] + ([] if quick else [2000, 4096, 10000])
         def hx(T, v): return hex_f64s(v) if T == "D" else hex_f32s(v)
         def sb(T, x): return "%016x" % bits_of_f64(x) if T == "D" else "%08x" % bits_of_f32(x)
@@ -539,11 +553,72 @@ class C20(Prop):
                     if T == "I":
                         M = rng.choice([d for d in (1, 2, 3, 4, 5, 8) if n % d == 0])
                         ops.append("vec op=IMatMax m=%d x=%s" % (M, hv))
+        # arithmetic at the edge of the representable range: exact results that stay representable, and a few whose true value does not
+        # (signed overflow: UBSan aborts the C side, the regenerated model answers `none`; both are `fault`)
+        for T, k in (("I", 4), ("L", 8)):
+            bits = 8 * k; lo, hi = -(1 << (bits - 1)), (1 << (bits - 1)) - 1
+            def hxi(v): return b"".join(int(x).to_bytes(k, "little", signed=True) for x in v).hex() or "-"
+            r = 1 << (bits // 2)
+            okc = [("Sum", [hi, lo] * rng.randrange(1, 6), None, None), ("Sum", [hi - 5, 1, 1, 1, 1, 1], None, None), ("Sum", [lo + 2, -1, -1, hi, hi], None, None),
+                   ("Sum", [lo], None, None), ("Sum", [hi, lo, hi, lo, hi], None, None),
+                   ("Dot", [lo, 3], [1, -7], None), ("Dot", [r, r], [r // 2 - 1, -(r // 2 - 1)], None), ("Dot", [hi, hi, 1], [1, -1, lo], None),
+                   ("Dot", [r // 2, r // 2], [r, -r], None), ("Dot", [-r // 2], [r], None),
+                   ("Scale", [hi, -hi, 0, 1, lo + 1], None, -1), ("Scale", [lo, hi, 5], None, 1), ("Scale", [lo, hi, -1], None, 0), ("Scale", [lo // 2, hi // 2, -(r // 2)], None, 2),
+                   ("Scale", [r - 1, -r], None, r // 2), ("MatScale", [lo // 2, hi // 2], None, 2),
+                   ("Increment", [hi - 3, lo, 0], None, 3), ("Increment", [lo + 3, hi, 0], None, -3), ("Increment", [lo, hi], None, 0), ("Increment", [-1, 0], None, hi), ("Increment", [0, -1], None, lo),
+                   ("Add", [hi, lo, hi - 1, lo + 1, 0], [lo, hi, 1, -1, lo], None), ("Add", [hi, lo], [0, 0], None),
+                   ("AddScaled", [hi, lo, 0, -1], [1, -1, hi, hi], -1), ("AddScaled", [0, 0], [lo // 2, hi // 2], 2), ("AddScaled", [lo, hi], [hi, lo], 0),
+                   ("AddScaled", [hi - 6, lo + 6], [3, 3], 2), ("AddScaled", [-1], [lo + 1], 1)]
+            bad = [("Sum", [hi, 1], None, None), ("Sum", [lo, -1], None, None), ("Sum", [1, 2, hi - 2, 0], None, None), ("Dot", [lo], [-1], None), ("Dot", [r, 1], [r // 2, 0], None),
+                   ("Dot", [hi, hi], [1, 1], None), ("Scale", [0, lo], None, -1), ("Scale", [r], None, r // 2), ("Increment", [0, hi], None, 1), ("Increment", [lo], None, -1),
+                   ("Add", [5, hi], [5, 1], None), ("Add", [lo], [-1], None), ("AddScaled", [0], [lo], -1), ("AddScaled", [hi], [1], 1), ("AddScaled", [0], [r], r)]
+            if T == "L": okc = [c for c in okc if c[0] != "MatScale"]
+            flt = []
+            for (o, v, w, c) in okc + bad:
+                line = "vec op=%s%s x=%s" % (T, o, hxi(v))
+                if w is not None: line += " y=" + hxi(w)
+                if c is not None: line += " k=%d" % c
+                if o == "MatScale": line += " m=1"
+                if self.int_ref(T, o, v, w or [], c if c is not None else 1) == "fault": flt.append(line)
+                else: ops.append(line)
+            edge_faults += rng.sample(flt, min(len(flt), 4 if quick else len(flt)))
+        # the routines on a prefix of the buffer (n smaller than the allocation), the flat matrix routines, char reversal
+        for T, k in (("D", 8), ("F", 4), ("I", 4), ("L", 8)):
+            for _ in range(6 if quick else 30):
+                n = rng.choice([1, 2, 3, 5, 8, 33, rng.randrange(1, 200)])
+                if T in "DF":
+                    v = self.rand_vec(rng, n, rng.choice(["uni", "ties", "wide", "zeros"]), T); w = self.rand_vec(rng, n, "uni", T)
+                    hv, hw = (hex_f64s(v), hex_f64s(w)) if T == "D" else (hex_f32s(v), hex_f32s(w))
+                    sc = "s=" + (("%016x" % bits_of_f64(1.5)) if T == "D" else ("%08x" % bits_of_f32(1.5)))
+                else:
+                    lim = 1000
+                    v = [rng.randrange(-lim, lim) for _ in range(n)]; w = [rng.randrange(-lim, lim) for _ in range(n)]
+                    hv = b"".join(int(x).to_bytes(k, "little", signed=True) for x in v).hex(); hw = b"".join(int(x).to_bytes(k, "little", signed=True) for x in w).hex()
+                    sc = "k=%d" % rng.choice([2, -3, 7])
+                m = rng.randrange(0, n + 1)
+                if m == 0 and rng.random() < 0.7: m = max(1, n // 2)
+                for o in rng.sample(["Set", "Scale", "Increment", "Sum", "ArgMax", "ArgMin", "Copy", "Reverse", "ReverseInPlace", "SortIncreasing", "SortDecreasing"], 4):
+                    ops.append("vec op=%s%s x=%s %s n=%d" % (T, o, hv, sc, m))
+                for o in rng.sample(["Add", "AddScaled", "Dot", "Swap"], 2):
+                    ops.append("vec op=%s%s x=%s y=%s %s n=%d" % (T, o, hv, hw, sc, m))
+                if m >= 1:
+                    for o in ("Max", "Min"): ops.append("vec op=%s%s x=%s n=%d" % (T, o, hv, m))
+                if T != "L":
+                    M = rng.choice([d for d in (1, 2, 3, 4, 5, 8) if n % d == 0])
+                    ops.append("vec op=%sMatSet m=%d x=%s %s" % (T, M, hv, sc)); ops.append("vec op=%sMatCopy m=%d x=%s" % (T, M, hv))
+        for n in (0, 1, 2, 3, 8, 9, 64, 65, rng.randrange(1, 600)):
+            cb = bytes(rng.randrange(256) for _ in range(n)).hex() or "-"
+            ops.append("vec op=CReverse x=%s" % cb); ops.append("vec op=CReverseInPlace x=%s" % cb)
+            if n >= 1:
+                M = rng.choice([d for d in (1, 2, 3, 4, 8) if n % d == 0])
+                ops.append("vec op=WMatCopy m=%d x=%s" % (M, bytes(rng.randrange(256) for _ in range(2 * n)).hex()))
+                ops.append("vec op=BMatCopy m=%d x=%s" % (M, cb))
         for n in (0, 1, 2, 7, 64, 255, rng.randrange(1, 600)):
             ops.append("vec op=WCopy x=%s" % (bytes(rng.randrange(256) for _ in range(2 * n)).hex() or "-"))
             ops.append("vec op=BCopy x=%s" % (bytes(rng.randrange(256) for _ in range(n)).hex() or "-"))
         rng.shuffle(ops)
-        return [{"name": "vec%d" % i, "ops": ops[i:i + 30]} for i in range(0, len(ops), 30)]
+        return ([{"name": "vec%d" % i, "ops": ops[i:i + 30]} for i in range(0, len(ops), 30)]
+                + [{"name": "vec-overflow%d" % i, "ops": [l]} for i, l in enumerate(edge_faults)])
 
     # ---- matrices
     def mat_cases(self, ctx):
@@ -618,6 +693,45 @@ class C20(Prop):
         if not inc: exp = -exp
         return None if line.split()[1] == str(exp) else "qsort_%s%s(%r, %r) has sign %s, a three-way comparison gives %d" % (T, kvs["op"][1:], a, b, line.split()[1], exp)
 
+    @staticmethod
+    def int_ref(T, name, x, y, c):
+        """the I/L arithmetic routines with C's evaluation order on mathematical integers: result, or "fault" when an intermediate
+        value is not representable (signed overflow: undefined behaviour, reported by UBSan)"""
+        k = 32 if T == "I" else 64
+        lo, hi = -(1 << (k - 1)), (1 << (k - 1)) - 1
+        def ck(v):
+            if not lo <= v <= hi: raise OverflowError
+            return v
+        try:
+            if name == "Sum":
+                acc = 0
+                for v in x: acc = ck(acc + v)
+                return acc
+            if name == "Dot":
+                acc = 0
+                for a, b in zip(x, y): acc = ck(acc + ck(a * b))
+                return acc
+            if name in ("Scale", "MatScale"): return [ck(v * c) for v in x]
+            if name == "Increment": return [ck(v + c) for v in x]
+            if name == "Add": return [ck(a + b) for a, b in zip(x, y)]
+            if name == "AddScaled": return [ck(a + ck(b * c)) for a, b in zip(x, y)]
+        except OverflowError:
+            return "fault"
+        return None
+
+    def expected_fault(self, op):
+        """is a death of the implementation on this op the documented undefined behaviour (signed overflow of the true result)?"""
+        name, kvs = kv(op)
+        if name != "vec" or kvs.get("op", " ")[0] not in "IL": return False
+        T, nm = kvs["op"][0], kvs["op"][1:]
+        k = 4 if T == "I" else 8
+        def ints(h):
+            b = unhex(h)
+            return [int.from_bytes(b[i:i + k], "little", signed=True) for i in range(0, len(b), k)]
+        x, y = ints(kvs.get("x", "-")), ints(kvs.get("y", "-"))
+        if "n" in kvs: x, y = x[:max(0, int(kvs["n"]))], y[:max(0, int(kvs["n"]))]
+        return self.int_ref(T, nm, x, y, int(kvs.get("k", "1"))) == "fault"
+
     def cases(self, ctx):
         out = self.cmp_cases(ctx) + self.intr_cases(ctx) + self.helper_cases(ctx) + self.logexp_cases(ctx) + self.vec_cases(ctx) + self.mat_cases(ctx)
         st = {}
@@ -641,15 +755,30 @@ class C20(Prop):
         """specification of a vector routine evaluated exactly / in high precision on the implementation's output.
         Returns None or a message."""
         T, name = op[0], op[1:]
+        if "n" in kvs and T in "DFILWBC":                      # the routine was run on a prefix of the buffers
+            esz = {"D": 8, "F": 4, "I": 4, "L": 8, "W": 2, "B": 1, "C": 1}[T]
+            lim = 2 * esz * max(0, int(kvs["n"]))
+            kvs = dict(kvs)
+            for key in ("x", "y"):
+                if key in kvs and kvs[key] != "-": kvs[key] = kvs[key][:lim] or "-"
+            del kvs["n"]
         if T in "WB":
             return None if line.split()[1:2] == [kvs.get("x", "-")] else "%s%s: output differs from input" % (T, name)
+        if T == "C":
+            xb = unhex(kvs.get("x", "-"))
+            return None if line.split()[1:2] == [xb[::-1].hex() or "-"] else "CReverse: output is not the reversed input"
         if T in "IL":
             k = 4 if T == "I" else 8
             xb = unhex(kvs.get("x", "-"))
             x = [int.from_bytes(xb[i:i + k], "little", signed=True) for i in range(0, len(xb), k)]
             res = line.split()[1] if len(line.split()) > 1 else ""
+            yb0 = unhex(kvs.get("y", "-")); y0 = [int.from_bytes(yb0[i:i + k], "little", signed=True) for i in range(0, len(yb0), k)]
+            if self.int_ref(T, name, x, y0, int(kvs.get("k", "1"))) == "fault":
+                return "%s%s: the true result is not representable (signed overflow) but the routine answered %s" % (T, name, res[:40])
             if name == "Sum": exp = str(sum(x))
             elif name in ("Max", "MatMax"): exp = str(max(x))
+            elif name == "MatSet": exp = b"".join(int(kvs.get("k", "1")).to_bytes(k, "little", signed=True) for v in x).hex() or "-"
+            elif name == "MatCopy": exp = kvs.get("x", "-")
             elif name == "Min": exp = str(min(x))
             elif name == "ArgMax": exp = str(x.index(max(x)) if x else 0)
             elif name == "ArgMin": exp = str(x.index(min(x)) if x else 0)
@@ -839,7 +968,9 @@ class C20(Prop):
     def monitor(self, ctx, case, out):
         for op, l in zip(case["ops"], out):
             name, kvs = kv(op)
-            if l.startswith(("fault", "atexit")): continue
+            if l.startswith(("fault", "atexit")):
+                if l.startswith("fault") and "signed_integer_overflow" in l and self.expected_fault(op): continue
+                return Failure("fault", "implementation died: %s  [%s]" % (l[:200], op[:120]))
             if l == "unsupported": continue
             if not l.startswith("ok"):
                 return Failure("monitor", "operation %r answered %r" % (op[:80], l))
